@@ -36,7 +36,7 @@ AddEntry == /\ stage = "list" /\ Len(item.lst) < N
             /\ UNCHANGED stage
 \* serialise as given; variants: clean, one padding bit set (if there is padding), a trailing zero byte
 Finish == /\ stage = "list" /\ item.lst # <<>>
-          /\ LET raw == Serialize(item.lst)
+          /\ LET raw == SerializeList(item.lst)
                  clean == Pad8(raw)
                  dirty == IF Len(raw) % 8 = 0 THEN clean ELSE [clean EXCEPT ![Len(clean)] = 1]
              IN \E pb \in {clean, dirty, clean \o Zeros(8)} : \E wb \in {<<>>, Zeros(8), <<1,0,1,0,0,0,0,0>>} :
@@ -93,7 +93,7 @@ Canonical ==
 Rules ==
   (Done /\ Mode = "lists") =>
      LET r == DecodeRedeem(item.pb, item.wb)
-         clean == item.pb = Pad8(Serialize(item.lst)) IN
+         clean == item.pb = Pad8(SerializeList(item.lst)) IN
      r.ok => /\ clean /\ CanonicalOrder(item.lst) /\ HiddenRules(item.lst) /\ r.lst = item.lst
 \* C01: encode, decode, encode
 RoundTrip ==
